@@ -174,10 +174,12 @@ static void check_ledger(std::vector<char> const& snap, long self, char const* w
     }
 }
 
+static thread_local bool tl_force_low = false;
 static ex::thread_pool_scheduler sched_with(rng& r, bool& nostack)
 {
     ex::thread_pool_scheduler s{};
     nostack = false;
+    if (tl_force_low) return ex::with_priority(s, pika::execution::thread_priority::low);
     switch (r.below(8))
     {
     case 0: s = ex::with_priority(s, pika::execution::thread_priority::high); break;
@@ -518,6 +520,22 @@ static void run_incarnation(rng& r, int inc, int force_style)
             // does not go to sleep while the low-priority queue is non-empty); the default grammar
             // therefore completes all external submissions first.  `race_suspend=1` keeps the race.
             if (!g_race_suspend) join_helpers();
+            if (g_race_suspend == 2)
+            {
+                // reproduction of finding C05-suspend-lowprio: low-priority work arriving from an OS
+                // thread while suspend() is between its idle check and the last worker falling asleep
+                std::uint64_t hs = r.next();
+                helpers.emplace_back([=] {
+                    rng rr{hs};
+                    tl_force_low = true;
+                    for (int k = 0; k < 40; ++k)
+                    {
+                        spawn(rr.next(), g_maxdepth, -1);
+                        g_stage.fetch_add(1);
+                        spin_us(20 + rr.below(100));
+                    }
+                });
+            }
             e2::note("x.susp.enter", nullptr);
             {
                 blocking b("pika::suspend()");
